@@ -115,6 +115,7 @@ pub struct ShadowStats {
     pub neglook_unwinds_checked: u64,
     pub neglook_group_checks: u64,
     pub capture_reads_checked: u64,
+    pub commit_brackets_checked: u64,
     pub epsilon_guard_fired: u64,
     pub max_depth: usize,
     pub max_aux: usize,
@@ -192,9 +193,57 @@ pub struct Shadow {
     last_epsilon: Option<(usize, usize)>,
     text_len: usize,
     dead: bool,
+    /// commit brackets: (id, group number of the marker before the construct, of the marker after)
+    brackets: Vec<(usize, usize, usize)>,
+    /// per bracket pair: branch depth when the marker before the construct last executed
+    bracket_depth: Vec<Option<usize>>,
 }
 
 impl Shadow {
+    /// Marker groups `(?<zbN>)` / `(?<zeN>)` around constructs that commit (atomic group,
+    /// possessive quantifier, negative look-around). When the construct is left, exactly the alternatives
+    /// alive when it was entered may be alive: every alternative created inside has been
+    /// discarded, none older. This is the statement's commit clause observed at the level of the
+    /// pattern: it does not depend on which instructions the construct was compiled to, so it
+    /// also holds (and is checked) when the compiler leaves BeginAtomic / EndAtomic out.
+    pub fn set_brackets(&mut self, brackets: Vec<(usize, usize, usize)>) {
+        self.bracket_depth = vec![None; brackets.len()];
+        self.brackets = brackets;
+    }
+
+    fn bracket_event(&mut self, group_lo: usize, group_hi: usize, slot: Option<usize>, pc: usize, depth: usize) {
+        // `slot` = Some(s): a Save of slot s; None: a Delegate that fills groups group_lo..group_hi
+        for k in 0..self.brackets.len() {
+            let (id, gb, ge) = self.brackets[k];
+            let is_begin = match slot {
+                Some(s) => s == 2 * gb + 1,
+                None => group_lo <= gb && gb < group_hi,
+            };
+            let is_end = match slot {
+                Some(s) => s == 2 * ge,
+                None => group_lo <= ge && ge < group_hi,
+            };
+            if is_begin {
+                self.bracket_depth[k] = Some(depth);
+            }
+            if is_end {
+                if let Some(d) = self.bracket_depth[k] {
+                    self.res.borrow_mut().stats.commit_brackets_checked += 1;
+                    if depth != d {
+                        self.fail(
+                            "commit-leaves-alternatives",
+                            format!(
+                                "the committing construct between the markers zb{} / ze{} was entered with {} alternatives alive and left (pc {}) with {}: {}",
+                                id, id, d, pc, depth,
+                                if depth > d { "alternatives created inside it survived its commit" } else { "it discarded alternatives older than itself" }
+                            ),
+                        );
+                    }
+                }
+            }
+        }
+    }
+
     pub fn new(check_model: bool, check_progress: bool) -> (Shadow, Rc<RefCell<ShadowResult>>) {
         let res = Rc::new(RefCell::new(ShadowResult::default()));
         (
@@ -232,6 +281,8 @@ impl Shadow {
                 last_epsilon: None,
                 text_len: 0,
                 dead: false,
+                brackets: Vec::new(),
+                bracket_depth: Vec::new(),
             },
             res,
         )
@@ -368,6 +419,9 @@ impl Observer for Shadow {
         self.last_epsilon = None;
         self.cur_is_begin = false;
         self.cur_is_end = false;
+        for d in self.bracket_depth.iter_mut() {
+            *d = None;
+        }
         self.res.borrow_mut().stats.runs += 1;
     }
 
@@ -487,6 +541,13 @@ impl Observer for Shadow {
                     );
                 }
                 self.res.borrow_mut().stats.neglook_unwinds_checked += 1;
+            }
+            if !self.brackets.is_empty() {
+                match insn {
+                    Insn::Save(slot) => self.bracket_event(0, 0, Some(*slot), pc, st.depth()),
+                    Insn::Delegate { start_group, end_group, .. } if end_group > start_group => self.bracket_event(*start_group, *end_group, None, pc, st.depth()),
+                    _ => {}
+                }
             }
             match insn {
                 Insn::BeginAtomic => self.marks.push((pc, st.depth())),
